@@ -226,3 +226,8 @@ Print Assumptions C18_rules_sorted.
 Print Assumptions C18_rules_insert_position.
 Print Assumptions C18_rules_insert_total.
 Print Assumptions C18_no_panic.
+
+(* default priority of a single-component rule in the current source *)
+Theorem C18_default_priority_pinned : (RV.Generated.Params.default_priority_single = 1)%N.
+Proof. exact default_priority_pinned. Qed.
+Print Assumptions C18_default_priority_pinned.
